@@ -614,6 +614,23 @@ def run_job(job, answers):
                 out["viol"].append(dict(signature=signature(job, "after-" + op[0], of, op_, fast), case=case, expected=op_, observed=of,
                                         what=f"after {op[0]}: rule set / decisions over the request universe differ between FastEnforcer(cache_key_order={order}) and Enforcer ({shape} model)"))
                 break
+            # enforce_ex on both: same decision, an explanation exactly when Enforcer gives one, and the explaining rule agrees
+            # with the request on every cache-key field (the keys are fields the matcher compares by equality)
+            bad_ex = None
+            for r in reqs[:: max(1, len(reqs) // 6)]:
+                try:
+                    fd, fe = fast.enforce_ex(*r)
+                    pd, pe = plain.enforce_ex(*r)
+                except Exception:  # noqa
+                    continue  # raising requests are compared through enforce above
+                out["evals"] += 2
+                if fd != pd or bool(fe) != bool(pe) or (fe and (list(fe) not in [list(x) for x in fast.get_policy()] or any(i < len(fe) and i < len(r) and fe[i] != r[i] for i in order))):
+                    bad_ex = (r, (fd, list(fe)), (pd, list(pe)))
+                    break
+            if bad_ex:
+                out["viol"].append(dict(signature=signature(job, "explain-after-" + op[0], repr(bad_ex[1]), repr(bad_ex[2]), fast), case=case, expected=repr(bad_ex[2]), observed=repr(bad_ex[1]), request=list(bad_ex[0]),
+                                        what=f"after {op[0]}: enforce_ex{tuple(bad_ex[0])} gives {bad_ex[1]} on FastEnforcer(cache_key_order={order}) and {bad_ex[2]} on Enforcer ({shape} model): decision / explanation differ, or the explaining rule does not agree with the request on the key fields"))
+                break
         # ---- the Lean side
         if lean_ok:
             m1, s1 = parse_ms(answers[ai])
